@@ -145,4 +145,4 @@ impl_policy!(LFUPolicy);
 
 #[cfg(all(transparencies_stretto_verif, any(kani, test)))]
 #[path = "/verif/harness/h_policy_sync.rs"]
-mod verif_harness;
+pub(crate) mod verif_harness;
